@@ -19,6 +19,7 @@ CHECKS = {
     "C11": ps.check_C11,
     "C12": pst.check_C12,
     "C13": pw.check_C13,
+    "C14": pst.check_C14,
     "C15": pc.check_C15,
     "C16": pw.check_C16,
     "C17": pw.check_C17,
